@@ -27,7 +27,15 @@ def run_config(torch, G, SpyLeaf, cfg):
          filter  : FilterGenerator(leaf of size n, mask_k) with mask_k = script[k % len] (list of 0/1)
        Returns dict(draws, batches, forms, taken, error)."""
     d, bsz, calls, kind = cfg['dims'], cfg['batch'], cfg['calls'], cfg['kind']
-    if kind == 'fixed':
+    twin = None
+    if kind in ('predefined', 'static'):
+        # sources that hand out their OWN persistent storage on every call; `twin` is an identical source nobody consumes
+        def mk():
+            if kind == 'predefined':
+                return G.PredefinedGenerator(*[[float(gd.point_value(0, 0, i, j)) for i in range(cfg['n'])] for j in range(d)])
+            return G.StaticGenerator(SpyLeaf(0, d, [cfg['n']], 'list1' if d == 1 else 'list'))
+        under, twin = mk(), mk()
+    elif kind == 'fixed':
         under = SpyLeaf(0, d, [cfg['n']], cfg.get('form', 'list'))
     elif kind == 'varying':
         under = SpyLeaf(0, d, cfg['script'], cfg.get('form', 'list'))
@@ -42,6 +50,19 @@ def run_config(torch, G, SpyLeaf, cfg):
             return torch.tensor([bool(b) for b in m], dtype=torch.bool)
         under = G.FilterGenerator(leaf, mask_fn)
     gd.spy_on(under, torch)
+    # a guard against runaway histories (a source that became empty makes the real loop spin; a cache aliased with its
+    # source doubles on every refill): stop the run, it is reported as a failing history
+    spied = under.get_examples
+    budget = {'draws': 0}
+
+    def guarded():
+        budget['draws'] += 1
+        x = spied()
+        first = x if isinstance(x, torch.Tensor) else (x[0] if len(x) else None)
+        if budget['draws'] > 40 * (bsz + 2) or (first is not None and len(first) > 4096):
+            raise RuntimeError('runaway: the batch generator keeps drawing / its source grows without bound')
+        return x
+    under.get_examples = guarded
     out = {'draws': under._spy_log, 'batches': [], 'forms': [], 'error': None}
     try:
         bg = G.BatchGenerator(under, bsz)
@@ -54,6 +75,15 @@ def run_config(torch, G, SpyLeaf, cfg):
     except Exception as e:            # canonicalised
         out['error'] = type(e).__name__
     out['taken'] = len(under._spy_log)
+    # non-interference: the batch generator must not modify what the source handed out, nor what it hands out later
+    out['interference'] = gd.raw_mutated(under._spy_raw, torch)
+    if out['interference'] is None and twin is not None and not out['error']:
+        want = gd.to_cols(twin.get_examples(), torch)[1]
+        got = [c for c in under._spy_log[1:] if not isinstance(c, tuple)] + [gd.to_cols(under.get_examples(), torch)[1]]
+        bad = next((i for i, c in enumerate(got) if c != want), None)
+        if bad is not None:
+            out['interference'] = (f'the {kind} source returned {[len(c) for c in got[bad]]} values per dimension at its draw {bad + 1}; an identical '
+                                   f'source that is not consumed by a BatchGenerator returns {[len(c) for c in want]}')
     return out
 
 
@@ -90,6 +120,9 @@ def oracle(ck, cfg, out):
     exactly `batch` rows in every dimension, one tensor per dimension.  Returns True if it holds."""
     d, bsz = cfg['dims'], cfg['batch']
     key = None
+    if out.get('interference'):
+        note_failure(f'source-modified/{cfg["kind"]}', cfg, f'BatchGenerator({short(cfg)}, calls={cfg["calls"]}): {out["interference"]}',
+                     'objects handed out by the underlying generator are left alone', out['interference'])
     if out['error']:
         note_failure(f'raises/{cfg["kind"]}', cfg, f'BatchGenerator({short(cfg)}) raised {out["error"]} on an admissible history',
                      'batches', out['error'])
@@ -159,13 +192,22 @@ def enumerate_varying(length, bmax):
                    'form': 'list'}
 
 
+def enumerate_persistent():
+    """sources that return their own storage: PredefinedGenerator, StaticGenerator over a list-returning leaf"""
+    for kind in ('predefined', 'static'):
+        for n in (1, 2, 3, 5, 8):
+            for b in (1, 2, 3, 5, 9):
+                for d in (1, 2, 3):
+                    yield {'dims': d, 'batch': b, 'calls': 4, 'kind': kind, 'n': n, 'form': 'list'}
+
+
 def random_config(r, max_rows):
     d = r.randint(1, 3)
     b = r.randint(1, 8) if r.random() < 0.5 else r.randint(1, 20)
     calls = r.randint(1, 40)
     while b * calls > max_rows:
         calls = max(1, calls // 2)
-    kind = r.choice(['fixed', 'varying', 'varying', 'filter', 'filter'])
+    kind = r.choice(['fixed', 'varying', 'varying', 'filter', 'filter', 'predefined', 'static'])
     n = r.randint(1, 8)
     cfg = {'dims': d, 'batch': b, 'calls': calls, 'kind': kind, 'n': n, 'form': r.choice(['list', 'tuple'])}
     if kind == 'varying':
@@ -212,7 +254,8 @@ def explore(ck, torch, G, SpyLeaf, cfgs, dist, coq=True):
 def main():
     ck = Check('C14')
     ck.rule = ('a case = one history of a real BatchGenerator: (underlying kind fixed | varying-size leaf | FilterGenerator with '
-               'per-draw masks) x underlying sizes x batch size x dims x number of calls, over a spying source whose points are '
+               'per-draw masks | PredefinedGenerator | StaticGenerator, the last two handing out their own storage and checked for '
+               'non-interference against an unconsumed twin) x underlying sizes x batch size x dims x number of calls, over a spying source whose points are '
                'identifiable integers ((call*16+row)*4+dim); bounded-exhaustive over sizes 1..8 x batch 1..20 (x dims 1..3 in the '
                'thorough tier) with 12 calls and over all cycled size sequences in {1,2,3}^L, random beyond (up to 40 calls); '
                'distinct = distinct configuration; non-trivial = at least one refill after construction')
@@ -254,6 +297,7 @@ def main():
     if not th:   # quick: the remaining dims of the exhaustive grid go through the implementation oracle only
         explore(ck, torch, G, SpyLeaf, (c for c in enumerate_fixed(12, True) if c['dims'] != 1 + (c['n'] + c['batch']) % 3), dist, coq=False)
     cases += explore(ck, torch, G, SpyLeaf, enumerate_varying(5 if th else 3, 6 if th else 5), dist)
+    cases += explore(ck, torch, G, SpyLeaf, enumerate_persistent(), dist)
     cases += explore(ck, torch, G, SpyLeaf, (random_config(r, 240) for _ in range(2000 if th else 150)), dist)
     # long histories (up to 40 calls x batch 20): implementation oracle on all, Coq on a sample
     long_cfgs = [random_config(r, 800) for _ in range(8000 if th else 400)]
